@@ -239,6 +239,9 @@ BREAKING = [
     ('C18', 'sc3/base/_oscinterface.py', "            for timed_msg in packet.messages:", "            for timed_msg in packet.messages[1:]:", 'the first message of every packet is dropped'),
     ('C01', 'sc3/synth/ugen.py', "        if self.operator == '+':\n            self._optimize_add()\n            return self\n        if self.operator == '-':\n            self._optimize_sub()", "        if self.operator == '+':\n            self._optimize_sub()\n            return self\n        if self.operator == '-':\n            self._optimize_add()", 'additions are sent to the subtraction rewrite and vice versa'),
     ('C01', 'sc3/synth/ugen.py', "                input._descendants.add(replacement)\n                input._descendants.discard(self)", "                input._descendants.add(self)\n                input._descendants.discard(replacement)", 'after a rewrite the replaced unit stays a descendant and the replacement does not become one'),
+    ('C11', 'sc3/base/stream.py', "        if self._next_nargs > 1:\n            return self.next_func(inval, self.data)", "        if self._next_nargs > 1:\n            return self.next_func(self.data, inval)", 'FunctionStream hands data and input value over in the wrong order'),
+    ('C13', 'sc3/seq/patterns/valuepatterns.py', "                inval = yield bi.exprand(loval, hival)", "                inval = yield bi.rrand(loval, hival)", 'Pexprand draws from the uniform distribution'),
+    ('C13', 'sc3/seq/patterns/valuepatterns.py', "                    self._calc_next(current, stepval), loval, hival)", "                    self._calc_next(current, stepval), hival, loval)", 'Pbrown folds with the bounds exchanged'),
 ]
 
 
